@@ -23,7 +23,8 @@ from vlib.fgenlab import ProgGen, ExprGen, Env, Var, DEFAULT_FLAGS
 HAZARDS = ('callee_return', 'dummy_name_capture', 'expr_actual_modified', 'absent_optional_ref',
            'fun_in_while', 'fun_in_elseif', 'kind_selected', 'autoarr_two_sizes', 'fun_return', 'neg_const',
            'assumed_shape_lb',
-           'fun_array_arg', 'fun_in_inline_if', 'const_chain', 'assoc_param', 'fun_keyword_arg', 'nested_same_fun')
+           'fun_array_arg', 'fun_in_inline_if', 'const_chain', 'assoc_param', 'fun_keyword_arg', 'nested_same_fun',
+           'respell_array_dummy')
 
 INL_FLAGS = dict(
     # which callee kinds exist
@@ -33,6 +34,10 @@ INL_FLAGS = dict(
     keyword=True, optional=True, alias_in=True, sections=True, lbound_actual=True, expr_actual=True,
     nested_calls=True, local_clash=True, initialisers=True, automatic_arrays=True, assumed_shape=True,
     call_density=0.3, optional_absent=False, simple_conditions=False,
+    # twin_locals: a second internal subroutine (isub2) and the marked callees hsub / hsub2 declare a local 'zwk' that
+    # differs in type or shape between the callees and does not exist in the caller; respell: declarations and uses
+    # of callee locals / dummies are spelled in different letter case
+    twin_locals=False, respell=False,
     # hazards (one at most)
     **{h: False for h in HAZARDS},
 )
@@ -86,7 +91,7 @@ class InlineGen(ProgGen):
             env.loopvars.append(loop)
         return env
 
-    def _mk_sub(self, name, internal=False, leaf=False):
+    def _mk_sub(self, name, internal=False, leaf=False, twin=None):
         """generate a subroutine callee; returns text and records its signature"""
         rng, f, rk = self.rng, self.flags, self.rk
         ex = self.ex
@@ -210,6 +215,10 @@ class InlineGen(ProgGen):
                 B.append(f"    if (present({o.name})) then")
                 B.append(f"      {o.name} = sin({o.name} + {lx})")
                 B.append('    end if')
+        if twin:
+            tdecl, tbody = self._twin_local(twin, dn['xio'], dn['sout'], dn['kin'])
+            locs.append(tdecl)
+            B += ['    ' + l for l in tbody]
         if not leaf and f['nested_calls'] and 'hfun' in self.sigs and rng.random() < 0.5:
             self.features.add('nested_fun_in_sub')
             ko = ', 3' if self.sigs['hfun'].get('optional') and not (f['optional_absent'] and rng.random() < 0.5) else ''
@@ -232,7 +241,25 @@ class InlineGen(ProgGen):
         self.sigs[name] = sig
         return '\n'.join(txt) + '\n'
 
-    def _mk_simple_sub(self, name):
+    TWIN_PAIRS = (('int', 'real'), ('real', 'arr3'), ('arr2', 'arr4'), ('arr3', 'int'), ('int', 'arr2'))
+
+    def _twin_local(self, kind, xio, sout, kin):
+        """(declaration, statements) of the local 'zwk' in one of its forms: integer scalar, real scalar, real array of
+        constant extent; the statements define it from the inout/in dummies and add it to the (already defined) out dummy"""
+        rk = self.rk
+        self.features.add('twin_local_' + kind)
+        if kind == 'int':
+            return 'integer :: zwk', [f'zwk = mod({kin} + 7, 11)', f'{sout} = {sout} + real(zwk, {rk})*0.125_{rk}']
+        if kind == 'real':
+            return (f'real(kind={rk}) :: zwk',
+                    [f'zwk = sin({xio})*0.5_{rk} + 0.3125_{rk}', f'{sout} = {sout} + zwk*0.25_{rk}'])
+        k = int(kind[3:])
+        return (f'real(kind={rk}) :: zwk({k})',
+                [f'zwk(1) = sin({xio})*0.5_{rk} + 0.3125_{rk}',
+                 f'zwk({k}) = zwk(1)*0.5_{rk} + real(mod({kin}, 5), {rk})*0.0625_{rk}',
+                 f'{sout} = {sout} + zwk({k})*0.25_{rk} + zwk(1)'])
+
+    def _mk_simple_sub(self, name, twin=None):
         """leaf subroutine with fixed signature (m2, xv, xu, so, kv), called from hsub and from kern; its dummy names
         differ from every name used in hsub (an actual argument that mentions the name of a callee dummy is a hazard)"""
         rk, ex = self.rk, self.ex
@@ -258,6 +285,10 @@ class InlineGen(ProgGen):
     xu = {ex.damp('xu*' + ex.rlit() + ' + so - x1')}
   end subroutine {name}
 """
+        if twin:
+            tdecl, tbody = self._twin_local(twin, 'xu', 'so', 'kv')
+            txt = txt.replace(f'    real(kind={rk}) :: x1\n', f'    real(kind={rk}) :: x1\n    {tdecl}\n', 1)
+            txt = txt.replace('    xu = ', ''.join(f'    {l}\n' for l in tbody) + '    xu = ', 1)
         self.sigs[name] = sig
         return txt
 
@@ -323,8 +354,9 @@ class InlineGen(ProgGen):
             procs.append(self._mk_fun('hele', elemental=True))
             self.helper_sigs.append(('hele', 'fun'))
         if f['subs']:
-            procs.append(self._mk_simple_sub('hsub2'))
-            procs.append(self._mk_sub('hsub'))
+            tw = rng.choice(self.TWIN_PAIRS) if f['twin_locals'] else (None, None)
+            procs.append(self._mk_simple_sub('hsub2', twin=tw[0]))
+            procs.append(self._mk_sub('hsub', twin=tw[1]))
             self.helper_sigs += [('hsub', 'sub'), ('hsub2', 'sub')]
         self.hmod_procs = procs
 
@@ -333,11 +365,18 @@ class InlineGen(ProgGen):
         if not f['internals']:
             return
         self.features.add('internal_procedure')
-        self.internals.append(self._mk_sub('isub', internal=True))
+        tw = self.rng.choice(self.TWIN_PAIRS) if f['twin_locals'] else (None, None)
+        self.internals.append(self._mk_sub('isub', internal=True, twin=tw[0]))
         self.helper_sigs.append(('isub', 'isub'))
         if self.rng.random() < 0.7:
             self.internals.append(self._mk_fun('ifun', internal=True))
             self.helper_sigs.append(('ifun', 'fun'))
+        if f['twin_locals']:
+            # a second internal subroutine whose same-named locals (zwk; ii / zloc / jloc / tmp when neither clashes with
+            # the caller) meet those hoisted from the first one
+            self.features.add('two_internal_subroutines')
+            self.internals.append(self._mk_sub('isub2', internal=True, twin=tw[1]))
+            self.helper_sigs.append(('isub2', 'isub'))
 
     def _gen_stmtfuncs(self):
         rng, rk, ex = self.rng, self.rk, self.ex
@@ -828,6 +867,13 @@ class InlineGen(ProgGen):
                     if name in self.called:
                         break
                     body += self._call_named('    ', name, kind)
+        if f['respell']:
+            self.features.add('callee_names_respelled')
+            ad = bool(f['respell_array_dummy'])
+            if ad:
+                self.features.add('respell_array_dummy')
+            self.hmod_procs = [_respell(p, rng, ad) for p in self.hmod_procs]
+            self.internals = [_respell(p, rng, ad) for p in self.internals]
         kinds = ('module kinds_mod\n  implicit none\n  integer, parameter :: jprb = '
                  + ('selected_real_kind(13, 300)' if f['kind_selected'] or not f['constants'] else '8')
                  + '\n  integer, parameter :: jpim = selected_int_kind(9)\nend module kinds_mod\n')
@@ -885,6 +931,62 @@ def _off(text, k):
     if k == 0:
         return text
     return f'{text} + {k}' if k > 0 else f'{text} - {-k}'
+
+
+_DECL_RE = re.compile(r'^\s*(integer|real|logical)\b[^:]*::\s*(.*)$', re.I)
+
+
+def _declared_names(text, skip_array_dummies=False):
+    """names declared in the specification lines of one procedure text (dummies, locals, result)"""
+    names = []
+    for line in text.split('\n'):
+        m = _DECL_RE.match(line)
+        if not m:
+            continue
+        dummy = 'intent(' in line.lower()
+        depth, cur, items = 0, '', []
+        for c in m.group(2):
+            if c == '(':
+                depth += 1
+            elif c == ')':
+                depth -= 1
+            if c == ',' and depth == 0:
+                items.append(cur)
+                cur = ''
+            else:
+                cur += c
+        items.append(cur)
+        for it in items:
+            mm = re.match(r'\s*([A-Za-z_]\w*)\s*(\()?', it)
+            if mm and not (skip_array_dummies and dummy and mm.group(2)):
+                names.append(mm.group(1).lower())
+    return names
+
+
+def _respell(text, rng, array_dummies=False):
+    """spell the dummies and locals of one callee differently in declarations and uses: upper case (mostly) in the
+    specification lines, a random mix of lower / upper / capitalised spelling everywhere else (comments untouched).
+    Array dummies keep their spelling unless ``array_dummies`` (known defect: map_call_to_procedure_body matches the
+    uses of an array dummy to its declaration by case-sensitive name comparison)."""
+    names = set(_declared_names(text, skip_array_dummies=not array_dummies))
+    fname = re.match(r'\s*(?:elemental\s+)?(?:subroutine|function)\s+(\w+)', text, re.I)
+    if fname:
+        names.discard(fname.group(1).lower())     # the function name as result variable keeps its spelling
+    if not names:
+        return text
+    pat = re.compile(r'(?<![\w%.])(' + '|'.join(sorted(names, key=len, reverse=True)) + r')(?![\w])', re.I)
+    out = []
+    for line in text.split('\n'):
+        code, sep, com = line.partition('!')
+        is_decl = bool(_DECL_RE.match(code))
+
+        def sub(mo, is_decl=is_decl):
+            w, r = mo.group(0), rng.random()
+            if is_decl:
+                return w.upper() if r < 0.7 else (w.capitalize() if r < 0.8 else w)
+            return w.upper() if r < 0.25 else (w.capitalize() if r < 0.35 else w)
+        out.append(pat.sub(sub, code) + sep + com)
+    return '\n'.join(out)
 
 
 def _idents(text):
